@@ -15,18 +15,18 @@ type OrderKey struct {
 
 // QSpec is a generated query in structured form.
 type QSpec struct {
-	Table   string     `json:"table"`
-	Sel     []string   `json:"sel"`
-	Where   *Pred      `json:"where,omitempty"`
-	WhereRaw string    `json:"whereRaw,omitempty"`
-	AsOf    string     `json:"asOf,omitempty"`
-	Until   string     `json:"until,omitempty"`
-	GroupBy []string   `json:"groupBy,omitempty"`
-	Having  string     `json:"having,omitempty"`
-	Order   []OrderKey `json:"order,omitempty"`
-	Limit   int        `json:"limit,omitempty"`  // 0 = none
-	Offset  int        `json:"offset,omitempty"` // 0 = none
-	FromSub *QSpec     `json:"fromSub,omitempty"`
+	Table    string     `json:"table"`
+	Sel      []string   `json:"sel"`
+	Where    *Pred      `json:"where,omitempty"`
+	WhereRaw string     `json:"whereRaw,omitempty"`
+	AsOf     string     `json:"asOf,omitempty"`
+	Until    string     `json:"until,omitempty"`
+	GroupBy  []string   `json:"groupBy,omitempty"`
+	Having   string     `json:"having,omitempty"`
+	Order    []OrderKey `json:"order,omitempty"`
+	Limit    int        `json:"limit,omitempty"`  // 0 = none
+	Offset   int        `json:"offset,omitempty"` // 0 = none
+	FromSub  *QSpec     `json:"fromSub,omitempty"`
 }
 
 func (q *QSpec) SQL() string {
@@ -98,7 +98,7 @@ type QGenOpts struct {
 	// InSubTables: tables that IN (SELECT ...) predicates may read (none = no
 	// IN-subqueries)
 	InSubTables []TableDef
-	NoConst  bool // no derived fields with constant operands (finding C01-gap-row-const)
+	NoConst     bool // no derived fields with constant operands (finding C01-gap-row-const)
 	// DataSpan is how far back (ns, positive) the data reaches from Base, for
 	// window generation.
 	DataSpan int64
@@ -337,7 +337,13 @@ func genQuery(r *Rng, t *TableDef, u *Universe, o QGenOpts) *QSpec {
 			outer.Sel = []string{PickOne(r, names)}
 			if r.Bool(0.6) {
 				d := PickOne(r, dimNames(u))
-				outer.GroupBy = []string{PickOne(r, []string{"_", "*", d, d, fmt.Sprintf("CONCAT('_', %s, 'k') AS %sk", d, d)})}
+				outer.GroupBy = []string{PickOne(r, []string{"_", "*", d, d, fmt.Sprintf("CONCAT('_', %s, 'k') AS %sk", d, d), "SUBSTR(da, 0, 1) AS das"})}
+				if g := outer.GroupBy[0]; g != "_" && g != "*" && r.Bool(0.4) {
+					// a second key: a plain dimension next to a computed one
+					if d2 := PickOne(r, dimNames(u)); d2 != d && !strings.Contains(g, d2) {
+						outer.GroupBy = append(outer.GroupBy, d2)
+					}
+				}
 			}
 			return outer
 		}
@@ -368,7 +374,7 @@ func sameRows(a, b *QResult) (bool, string) {
 	for k := range ia {
 		ra, rb := &a.Rows[ia[k]], &b.Rows[ib[k]]
 		if ra.TS != rb.TS || ra.Key != rb.Key || len(ra.Vals) != len(rb.Vals) {
-			return false, fmt.Sprintf("row %d differs: %s vs %s", k, rowLine(a.Fields, ra), rowLine(b.Fields, rb))
+			return false, fmt.Sprintf("row %d differs: %s vs %s\n first: %s\n second: %s", k, rowLine(a.Fields, ra), rowLine(b.Fields, rb), strings.Join(firstN(a.Canon(), 12), "\n        "), strings.Join(firstN(b.Canon(), 12), "\n         "))
 		}
 		for i := range ra.Vals {
 			if !floatClose(ra.Vals[i], rb.Vals[i]) {
